@@ -148,3 +148,12 @@ package golang
 //@   maypanic
 //@   modifies *
 //@   site call:g.prepareUtilities assert g.err == nil && g.req == req
+
+// PostProcess (C19: every file is written with its own content): the result is the content handed in, or what gofmt made
+// of it; a formatting failure keeps the content (and is only logged), it never yields an empty file.
+//@ func (g *GoBackend) PostProcess(path string, content []byte) ([]byte, error)
+//@   requires g != nil && g.utils != nil
+//@   modifies *
+//@   ensures result1 == nil
+//@   ensures ncalls("format.Source") == 0 ==> result0 == content
+//@   ensures ncalls("format.Source") >= 1 ==> callarg("format.Source", 0) == content && (callret("format.Source", 1) != nil ==> result0 == content) && (callret("format.Source", 1) == nil ==> result0 == callret("format.Source", 0))
